@@ -29,7 +29,7 @@ LEVEL = "model_checking"
 # no reduced pass under `python -O`: the texts here include malformed ones, which the trusted tokenizer (msdparser)
 # recognises by assert statements - without them it loops; that is the dependency's business
 REDUCED_PASS = False
-NAMES = ["x.sm", "x.ssc", ".SM", ".SSC", "x.txt", "x.sm.bak", "sm", "y.sm\n"]  # ".SM" / ".SSC": upper case and nothing before the dot
+NAMES = ["x.sm", "x.ssc", ".SM", ".SSC", "x.txt", "x.sm.bak", "ssc", "y.sm\n"]  # ".SM" / ".SSC": upper case and nothing before the dot
 
 
 def translate(text):
